@@ -73,6 +73,20 @@ form('addassign-void-of-instrumented-call', { ops: ['+=', '+'] }, F => `${F.loc(
 form('tpl-void-of-instrumented-call-subst', { ops: ['tpl', '+'] }, F => `\`\${${F.loc()}}|\${void w.id${F.id()}(${F.s()} + ${F.f()})}\``)
 form('concat-void-of-instrumented-call-arg', { ops: ['concat', 'trim'] }, F => `${F.loc()}.concat(void w.id${F.id()}(${F.f()}.trim()), ${F.s()})`)
 form('proto-apply-void-elem', { ops: ['concat', '+'] }, F => `String.prototype.concat.apply(${F.loc()}, [void w.id${F.id()}(${F.s()} + ${F.f()}), ${F.s()}])`)
+// operands that look inert but run code when evaluated: class expressions (heritage, computed keys, static fields / blocks)
+form('plus-ident-then-class-static-block-reassigner', { ops: ['+'] }, F => { const a = F.loc(); return `${a} + class { static toString() { return 'K' } static { ${a} = ${F.s()} } }` })
+form('plus-ident-then-class-computed-key-reassigner', { ops: ['+'] }, F => { const a = F.loc(); return `${a} + class { static toString() { return 'K' } [(${a} = ${F.s()}, 'k')]() {} }` })
+form('plus-ident-then-class-heritage-effect', { ops: ['+'] }, F => { const a = F.loc(); return `${a} + class extends (${a} = ${F.s()}, Object) { static toString() { return 'K' } }` })
+form('addassign-ident-then-class-static-field', { ops: ['+='] }, F => { const a = F.loc(); return `${a} += class { static toString() { return 'K' } static f = (${a} = ${F.s()}) }` })
+form('plus-ident-then-inert-function-operands', { ops: ['+'] }, F => `${F.loc()} + function () { return 1 }.length + (() => 2).length`)
+// the same identifier repeated among the arguments, literals in between
+form('call-spread-of-string-literal', { ops: ['concat'] }, F => `${F.loc()}.concat(${F.s()}, ...'d${F.id()}')`)
+form('proto-call-spread-of-string-literal', { ops: ['concat'] }, F => `String.prototype.concat.call(${F.loc()}, ...'e${F.id()}', ${F.f()})`)
+form('concat-repeated-ident-after-literal', { ops: ['concat'] }, F => { const b = F.loc(); return `${F.loc()}.concat(${b}, 'x${F.id()}', ${b})` })
+form('proto-call-repeated-ident-after-literals', { ops: ['concat'] }, F => { const b = F.loc(); return `String.prototype.concat.call(${F.loc()}, ${b}, 1, 'y${F.id()}', ${b})` })
+form('proto-apply-repeated-ident-after-literal', { ops: ['concat'] }, F => { const b = F.loc(); return `String.prototype.concat.apply(${F.loc()}, [${b}, 'z${F.id()}', ${b}, ${b}])` })
+form('bare-call-repeated-ident-after-literal', { ops: ['aloneMethod'], nodemand: true }, F => { F.needAlone = true; const b = F.loc(); return `aloneMethod(${b}, 'q${F.id()}', ${b})` })
+form('concat-repeated-receiver-as-arg', { ops: ['concat'] }, F => { const b = F.loc(); return `${b}.concat('r${F.id()}', ${b}, ${b})` })
 form('plus-cond-operand', { ops: ['+'] }, F => `${F.loc()} + (w.b${F.id()} ? ${F.s()} : ${F.f()})`)
 form('plus-mul-operand', { ops: ['+'] }, F => `${F.loc()} + w.i${F.id()} * 2`)
 form('plus-unary-operands', { ops: ['+'] }, F => `typeof ${F.loc()} + -w.i${F.id()}`)
@@ -110,7 +124,9 @@ form('delete-computed-tpl-key', { ops: ['tpl'], instr: false }, F => `delete w.o
 form('delete-then-plus', { ops: ['+'] }, F => `(delete w.o${F.id()}?.s1.substring(1).c) + ${F.loc()} + ${F.f()}`)
 // D7 seen from the outside: a function whose parameter default is instrumented is called while the calling expression
 // has live temporaries (both use the enclosing function's __datadog_*_0..)
-form('addassign-live-temps-across-default-param-call', { ops: ['+=', '+'], kf: 'D7' }, F => { const fn = F.loc(`function (x = ${F.s()} + ${F.f()}) { return x }`); return `w.o${F.id()}.p += ${fn}()` })
+form('addassign-live-temps-across-default-param-call', { ops: ['+=', '+'] }, F => { const fn = F.loc(`function (x = ${F.s()} + ${F.f()}) { return x }`); return `w.o${F.id()}.p += ${fn}()` })
+form('plus-live-temps-across-class-field-init', { ops: ['+'] }, F => { const K = F.loc(`class { p = ${F.s()} + ${F.f()}; static q = \`\${${F.s()}}|\${${F.f()}}\` }`); return `${F.f()} + new ${K}().p + ${K}.q` })
+form('concat-live-temps-across-method-default-param-call', { ops: ['concat', '+'] }, F => { const o = F.loc(`{ m(x = ${F.s()} + ${F.f()}, y = x.trim()) { return x + y } }`); return `${F.f()}.concat(${o}.m(), ${F.s()})` })
 form('minus-only', { ops: [], instr: false }, F => `w.i${F.id()} - w.i${F.id()}`)
 // +=
 form('addassign-ident-lit', { ops: ['+='] }, F => `${F.loc()} += ${F.lit()}`)
@@ -195,6 +211,8 @@ form('proto-call-paren-class-path', { ops: ['concat'], nodemand: true }, F => `(
 // the method is missing on the prototype object: reading `.call` of undefined throws BEFORE the arguments are evaluated (D35)
 form('proto-call-missing-method', { ops: ['concat'], nodemand: true, kf: 'D35' }, F => `Number.prototype.concat.call(${F.loc()}, ${F.f()})`)
 form('proto-apply-arraylit', { ops: ['concat'] }, F => `String.prototype.concat.apply(${F.loc()}, [${F.s()}, ${F.lit()}, ${F.f()}])`)
+form('proto-apply-no-list', { ops: ['trim'] }, F => `String.prototype.trim.apply(${F.loc()})`)
+form('proto-apply-no-list-effect-this', { ops: ['toUpperCase'] }, F => `String.prototype.toUpperCase.apply(${F.f()})`)
 form('proto-apply-empty', { ops: ['trim'] }, F => `String.prototype.trim.apply(${F.loc()}, [])`)
 form('proto-apply-variable-args', { ops: ['concat'], kf: 'D19' }, F => `String.prototype.concat.apply(${F.loc()}, w.arr${F.id()})`)
 form('proto-apply-hole', { ops: ['concat'] }, F => `String.prototype.concat.apply(${F.loc()}, [${F.f()}, , ${F.lit()}])`)
@@ -254,6 +272,8 @@ form('opt-arg-opt', { ops: ['concat', 'trim'] }, F => `${F.loc()}?.concat(${F.lo
 form('opt-nested-arg-guard', { ops: ['trim', 'concat'] }, F => { const o = `w.o${F.id()}`; return `${o}?.n1?.trim().concat(${o}?.s2.trim())` })
 form('opt-shadowed-undefined', { ops: ['trim'], kf: 'D21', sloppy: true }, F => `(function (undefined) { return w.n${F.id()}?.trim() })(5)`)
 // bare call
+// the bare function does not exist: the ReferenceError comes before the arguments are evaluated (D35 family: the callee problem shows after the arguments)
+form('bare-allowed-undeclared-callee', { ops: ['aloneMethod'], nodemand: true, kf: 'D35' }, F => `aloneMethod(${F.f()})`)
 form('bare-allowed', { ops: ['aloneMethod'], nodemand: true }, F => { F.needAlone = true; return `aloneMethod(${F.s()}, ${F.f()})` })
 form('bare-not-allowed', { ops: [], instr: false }, F => { F.needTrimFn = true; return `trim(${F.s()})` })
 
